@@ -8,8 +8,8 @@ NA = {
  "C01": "Type soundness quantifies over every accepted program; it is a meta-theorem about compiler.rs + typing.rs + narrowing.rs + the VM, not a postcondition of any function; whole-repository proof is not tractable (DESIGN.md §5).",
  "C02": "Needs an independent reference evaluator for docs/spec.md (a model, which this technique family excludes) and an inductive argument over the whole compiler.",
  "C03": "Schedule/worker-count independence: the installed Verus workflow has no thread or channel model and Kani has no threads; not a per-function contract.",
- "C04": "Exactly-once/FIFO/no-lost-wake-up is a whole-history protocol property across Executor/Worker/Environment; the per-executor functions use HashMap::get_mut and VecDeque::retain(closure), which Verus rejects.",
- "C05": "Select priority/filter/mailbox-order logic lives in functions that use the process map, iterator adapters and let-chains with else (outside the Verus dialect); only the 3-line timeout predicate is in reach - too thin to claim.",
+ "C04": "Exactly-once/FIFO/no-lost-wake-up is a whole-history protocol property across Executor/Worker/Environment. Function-level pieces are proved under C06 (notify_message appends the injected message at the back of the mailbox and wakes the receiver exactly once; handle_send hands the value over in an Action), but delivery order and wake-ups are decided by worker.rs / environment.rs event loops over mpsc channels, for which this technique has no model.",
+ "C05": "The select helpers around the core are proved as parts of C06/C15 (complete_select, the timeout predicate, the awaited-process lookup, lazy start time, continuation), but the core of the property is not within reach: which receive source is ready is decided by handle_select_receive / scan_mailbox_for_message / call_receive_function, which walk a VecDeque mailbox with enumerate().skip(), use let-chains with else, and run the filter through handle_call (a call through a function pointer, rejected by Verus). A priority claim relative to an assumed readiness oracle would prove the for loop and assume the property - too thin to claim.",
  "C07": "Well-formedness of emitted bytecode is a property of the 4.6 kLoC emitter; only the jump offset encode/decode pair is in reach - too thin to claim.",
  "C08": "Runtime type tests are table lookups; their correctness reduces to is_compatible (C09) and closure/HashMap-based table builders outside the dialect.",
  "C09": "check_type_relation threads &mut HashSet/&mut Vec through iter().all/any closures and let-chains (outside Verus); its specification needs a value-enumeration oracle (a model); CBMC cannot carry String-keyed type tables.",
